@@ -29,9 +29,10 @@ structure Acct (s : St) : Prop where
   acct : s.drv = .running → ∀ k ∈ s.inUse, ∃ (i : Nat) (o : Op), s.ops[i]? = some o ∧ o.id = k ∧ Reg s i o
   dead : s.drv ≠ .running → s.resultmap = [] ∧ s.searchmap = [] ∧ s.opQ = []
   chanIdx : ∀ (c : Nat) (ch : Chan), s.chans[c]? = some ch → ch.opIdx < s.ops.length
+  qNodup : s.opQ.Nodup
 
 theorem Acct.init (N : Nat) : Acct (Conn.init N) := by
-  refine ⟨?_, ?_, ?_, ?_, ?_, ?_, ?_, ?_, ?_, ?_, ?_, ?_⟩ <;> simp [Conn.init]
+  refine ⟨?_, ?_, ?_, ?_, ?_, ?_, ?_, ?_, ?_, ?_, ?_, ?_, ?_⟩ <;> simp [Conn.init]
 
 theorem get_set {ops : List Op} {i : Nat} {o : Op} (o' : Op) (j : Nat) (ho : ops[i]? = some o) :
     (ops.set i o')[j]? = if j = i then some o' else ops[j]? := by
@@ -45,8 +46,8 @@ theorem get_set {ops : List Op} {i : Nat} {o : Op} (o' : Op) (j : Nat) (ho : ops
 theorem Acct.congr {s s' : St} (h : Acct s) (ho : s'.ops = s.ops) (hc : s'.chans = s.chans) (hq : s'.opQ = s.opQ)
     (hsq : s'.scrubQ = s.scrubQ) (hr : s'.resultmap = s.resultmap) (hsm : s'.searchmap = s.searchmap)
     (hi : s'.inUse = s.inUse) (hd : s'.drv = s.drv) : Acct s' := by
-  obtain ⟨a1, a2, a3, a4, a5, a6, a7, a8, a9, a10, a11, a12⟩ := h
-  refine ⟨?_, ?_, ?_, ?_, ?_, ?_, ?_, ?_, ?_, ?_, ?_, ?_⟩
+  obtain ⟨a1, a2, a3, a4, a5, a6, a7, a8, a9, a10, a11, a12, a13⟩ := h
+  refine ⟨?_, ?_, ?_, ?_, ?_, ?_, ?_, ?_, ?_, ?_, ?_, ?_, by rw [hq]; exact a13⟩
   · rw [hq, ho]; exact a1
   · rw [hq, ho]; exact a2
   · rw [ho]; exact a3
@@ -100,7 +101,7 @@ theorem Acct.alloc {s s' : St} {ob : Obs} (h : Acct s) (kind : Kind)
     obtain ⟨hs, _⟩ := hs
     subst hs
     have hf := hfresh id hn
-    obtain ⟨a1, a2, a3, a4, a5, a6, a7, a8, a9, a10, a11, a12⟩ := h
+    obtain ⟨a1, a2, a3, a4, a5, a6, a7, a8, a9, a10, a11, a12, a13⟩ := h
     show Acct ({ s with
       last := id
       inUse := id :: s.inUse
@@ -138,7 +139,7 @@ theorem Acct.alloc {s s' : St} {ob : Obs} (h : Acct s) (kind : Kind)
       have : c < s.chans.length := (List.getElem?_eq_some_iff.mp hc).1
       cases kind <;> simp only <;> try exact hc
       rw [get_append_one, if_pos this]; exact hc
-    refine ⟨?_, ?_, ?_, ?_, ?_, ?_, ?_, ?_, ?_, ?_, ?_, ?_⟩
+    refine ⟨?_, ?_, ?_, ?_, ?_, ?_, ?_, ?_, ?_, ?_, ?_, ?_, a13⟩
     · intro i hi
       obtain ⟨o, ho, hp⟩ := a1 i hi
       exact ⟨o, oldop i o ho, hp⟩
@@ -206,7 +207,7 @@ theorem Acct.enqueue {s s' : St} {ob : Obs} (h : Acct s) (i : Nat) (tmo : Option
   | some o =>
     rw [ho] at hs
     simp only at hs
-    obtain ⟨a1, a2, a3, a4, a5, a6, a7, a8, a9, a10, a11, a12⟩ := h
+    obtain ⟨a1, a2, a3, a4, a5, a6, a7, a8, a9, a10, a11, a12, a13⟩ := h
     split at hs
     · cases hs
     · next hph =>
@@ -228,7 +229,7 @@ theorem Acct.enqueue {s s' : St} {ob : Obs} (h : Acct s) (i : Nat) (tmo : Option
         simp only [Option.some.injEq, Prod.mk.injEq] at hs
         rw [← hs.1]
         obtain ⟨d1, d2, d3⟩ := a11 hd
-        refine ⟨?_, ?_, ?_, ?_, ?_, ?_, ?_, ?_, ?_, ?_, ?_, ?_⟩
+        refine ⟨?_, ?_, ?_, ?_, ?_, ?_, ?_, ?_, ?_, ?_, ?_, ?_, a13⟩
         · intro j hj; rw [d3] at hj; cases hj
         · intro j oj hoj hp
           rw [get_set _ j ho] at hoj
@@ -269,7 +270,9 @@ theorem Acct.enqueue {s s' : St} {ob : Obs} (h : Acct s) (i : Nat) (tmo : Option
         have hrun : s.drv = .running := by simpa using hd
         simp only [Option.some.injEq, Prod.mk.injEq] at hs
         rw [← hs.1]
-        refine ⟨?_, ?_, ?_, ?_, ?_, ?_, ?_, ?_, ?_, ?_, ?_, ?_⟩
+        refine ⟨?_, ?_, ?_, ?_, ?_, ?_, ?_, ?_, ?_, ?_, ?_, ?_, ?_⟩
+        rotate_right
+        · exact List.nodup_append.mpr ⟨a13, by simp, by intro a ha b hb; simp at hb; subst hb; intro e; exact hni (e ▸ ha)⟩
         · intro j hj
           simp only [List.mem_append, List.mem_singleton] at hj
           rcases hj with hj | rfl
@@ -377,7 +380,7 @@ theorem Acct.setRes {s : St} (h : Acct s) (i : Nat) (o : Op) (ho : s.ops[i]? = s
       (r = .timeout ∧ o.mail = .empty ∧ q' = s.scrubQ ++ [o.id] ∧ s.drv = .running) ∨
       (r = .scrubSendErr ∧ o.mail = .empty ∧ s.drv ≠ .running ∧ q' = s.scrubQ)) :
     Acct { s with ops := s.ops.set i { o with res := some r }, scrubQ := q', chans := dropRxOf s.chans oc } := by
-  obtain ⟨a1, a2, a3, a4, a5, a6, a7, a8, a9, a10, a11, a12⟩ := h
+  obtain ⟨a1, a2, a3, a4, a5, a6, a7, a8, a9, a10, a11, a12, a13⟩ := h
   have hsub : ∀ k, k ∈ s.scrubQ → k ∈ q' := by
     intro k hk
     rcases hr with ⟨_, _, e⟩ | ⟨f, _, _, e⟩ | ⟨_, _, e⟩ | ⟨_, _, e, _⟩ | ⟨_, _, _, e⟩ <;> rw [e] <;> simp [hk]
@@ -411,7 +414,7 @@ theorem Acct.setRes {s : St} (h : Acct s) (i : Nat) (o : Op) (ho : s.ops[i]? = s
         | taken => exact absurd hp hnt
       have := a2 i o ho hq
       rw [(a11 hd).2.2] at this; cases this
-  refine ⟨?_, ?_, ?_, ?_, ?_, ?_, ?_, ?_, ?_, ?_, ?_, ?_⟩
+  refine ⟨?_, ?_, ?_, ?_, ?_, ?_, ?_, ?_, ?_, ?_, ?_, ?_, a13⟩
   · intro j hj
     obtain ⟨oj, hoj, hp⟩ := a1 j hj
     by_cases e : j = i
@@ -593,7 +596,7 @@ theorem Acct.chanUpd {s : St} (h : Acct s) (c : Nat) (ch : Chan) (o : Op) (hc : 
     (hfin : ch'.finScrub = true → ch.finScrub = true ∨ q' = s.scrubQ ++ [o.id] ∨ s.drv ≠ .running)
     (hto : ch'.timedOut = true → ch.timedOut = true ∨ q' = s.scrubQ ++ [o.id] ∨ s.drv ≠ .running) :
     Acct { s with chans := s.chans.set c ch', scrubQ := q' } := by
-  obtain ⟨a1, a2, a3, a4, a5, a6, a7, a8, a9, a10, a11, a12⟩ := h
+  obtain ⟨a1, a2, a3, a4, a5, a6, a7, a8, a9, a10, a11, a12, a13⟩ := h
   have hclt : c < s.chans.length := (List.getElem?_eq_some_iff.mp hc).1
   have hsub : ∀ k, k ∈ s.scrubQ → k ∈ q' := by
     intro k hk; rcases hq with e | e <;> rw [e] <;> simp [hk]
@@ -604,7 +607,7 @@ theorem Acct.chanUpd {s : St} (h : Acct s) (c : Nat) (ch : Chan) (o : Op) (hc : 
     split at hd
     · next e => simp only [hclt, if_true, Option.some.injEq] at hd; exact Or.inl ⟨e.symm, hd.symm⟩
     · next e => exact Or.inr ⟨fun x => e x.symm, hd⟩
-  refine ⟨a1, a2, a3, a4, ?_, ?_, ?_, ?_, a9, ?_, a11, ?_⟩
+  refine ⟨a1, a2, a3, a4, ?_, ?_, ?_, ?_, a9, ?_, a11, ?_, a13⟩
   · intro p hp
     obtain ⟨op, hop, hid, hpt, hm, hrs⟩ := a5 p hp
     refine ⟨op, hop, hid, hpt, hm, ?_⟩
@@ -721,5 +724,87 @@ theorem Acct.finish {s s' : St} {ob : Obs} (h : Acct s) (c : Nat) (b : Bool)
           simp only at x
           right; right
           intro hrun; exact hb ⟨x, hrun⟩
+
+/-- a state in which the driver has ended: queue and maps dropped, operations only "deadened"
+(reply senders dropped, queued requests discarded) -/
+theorem Acct.dead_of {s s' : St} (h : Acct s) (hd : s'.drv ≠ .running) (hq : s'.opQ = []) (hr : s'.resultmap = [])
+    (hsm : s'.searchmap = []) (hc : s'.chans = s.chans) (hlen : s'.ops.length = s.ops.length)
+    (hops : ∀ (j : Nat) (o' : Op), s'.ops[j]? = some o' → ∃ o : Op, s.ops[j]? = some o ∧ o'.kind = o.kind ∧
+      o'.chan = o.chan ∧ o'.res = o.res ∧ o'.phase ≠ .queued ∧ (o'.phase ≠ .taken → o' = o) ∧
+      (o'.mail = .ack → o.mail = .ack) ∧ (o.phase = .taken → o'.phase = .taken)) : Acct s' := by
+  obtain ⟨a1, a2, a3, a4, a5, a6, a7, a8, a9, a10, a11, a12, a13⟩ := h
+  refine ⟨?_, ?_, ?_, ?_, ?_, ?_, ?_, ?_, ?_, ?_, ?_, ?_, ?_⟩
+  · intro j hj; rw [hq] at hj; cases hj
+  · intro j o' ho' hp
+    obtain ⟨o, _, _, _, _, hnq, _⟩ := hops j o' ho'
+    exact absurd hp hnq
+  · intro j o' ho' hp
+    obtain ⟨o, ho, _, _, _, _, heq, _⟩ := hops j o' ho'
+    have e := heq hp
+    subst e
+    exact a3 j o' ho hp
+  · intro j o' ho'
+    obtain ⟨o, ho, hk, hch, _⟩ := hops j o' ho'
+    rw [hk, hch]; exact a4 j o ho
+  · intro p hp; rw [hr] at hp; cases hp
+  · intro p hp; rw [hsm] at hp; cases hp
+  · intro c ch o' hcc ho'
+    rw [hc] at hcc
+    obtain ⟨o, ho, _, _, hres, _, heq, _⟩ := hops _ o' ho'
+    have := a7 c ch o hcc ho
+    refine ⟨fun hne => this.1 (by rw [← hres]; exact hne), fun hp => ?_⟩
+    have e := heq hp
+    subst e
+    exact this.2 hp
+  · intro j hj; rw [hq] at hj; cases hj
+  · intro j o' ho' hh
+    obtain ⟨o, ho, _, _, hres, _, _, hma, hpt⟩ := hops j o' ho'
+    apply hpt
+    apply a9 j o ho
+    rcases hh with hh | hh
+    · exact Or.inl (by rw [← hres]; exact hh)
+    · exact Or.inr (hma hh)
+  · intro hrun; exact absurd hrun hd
+  · intro _; exact ⟨hr, hsm, hq⟩
+  · intro c ch hcc
+    rw [hc] at hcc; rw [hlen]; exact a12 c ch hcc
+  · rw [hq]; exact List.nodup_nil
+
+theorem Acct.endDriver {s : St} (h : Acct s) (how : Drv) (hhow : how ≠ .running) : Acct (Conn.endDriver s how) := by
+  apply h.dead_of (s' := Conn.endDriver s how) hhow rfl rfl rfl rfl (by simp [Conn.endDriver])
+  intro j o' ho'
+  rw [endDriver_get] at ho'
+  cases ho : s.ops[j]? with
+  | none => rw [ho] at ho'; cases ho'
+  | some o =>
+    rw [ho] at ho'
+    simp only [Option.map_some, Option.some.injEq] at ho'
+    have hdm : ∀ m : Mail, dropIf m = .ack → m = .ack := by
+      intro m hm; unfold dropIf at hm; split at hm
+      · cases hm
+      · exact hm
+    refine ⟨o, rfl, ?_⟩
+    by_cases hq : s.opQ.contains j = true
+    · rw [if_pos hq] at ho'
+      rw [← ho']
+      exact ⟨rfl, rfl, rfl, by simp, fun hp => absurd rfl hp, hdm _, fun _ => rfl⟩
+    · rw [if_neg hq] at ho'
+      have hnq : o.phase ≠ .queued := by
+        intro hp
+        have := h.phaseQ j o ho hp
+        exact hq (by simpa using this)
+      split at ho'
+      · rw [← ho']
+        exact ⟨rfl, rfl, rfl, hnq, fun hp => by
+          -- an op registered in the result map has been taken
+          exfalso
+          rename_i hany
+          simp only [List.any_eq_true, beq_iff_eq] at hany
+          obtain ⟨p, hp1, hp2⟩ := hany
+          obtain ⟨op, hop, _, hpt, _⟩ := h.rmOk p hp1
+          rw [hp2, ho] at hop; cases hop
+          exact hp hpt, hdm _, fun hp => hp⟩
+      · rw [← ho']
+        exact ⟨rfl, rfl, rfl, hnq, fun _ => rfl, fun hm => hm, fun hp => hp⟩
 
 end Ldap3V.Conn
